@@ -74,6 +74,72 @@ def property_holds(draws, out, bs, dims):
     return None
 
 
+def robustness_checks():
+    """the stream property under two things the integer-valued spy cannot show (evaluated on the real object, every run):
+    * the underlying generator fails in the middle of a refill and the caller retries: what was already drawn is not lost;
+    * draws of different floating-point precision: every sample is delivered with the value it was drawn with"""
+    import torch
+    from neurodiffeq.generators import BatchGenerator, BaseGenerator
+    bad = []
+
+    class Flaky(BaseGenerator):
+        def __init__(self, fail_on):
+            super().__init__()
+            self.size, self.calls, self.fail_on, self.next, self.given = 3, 0, set(fail_on), 0, []
+
+        def get_examples(self):
+            self.calls += 1
+            if self.calls in self.fail_on:
+                raise RuntimeError('transient failure of the underlying generator')
+            pts = [float(self.next + k) for k in range(3)]
+            self.next += 3
+            self.given += pts
+            return torch.tensor(pts), torch.tensor([p + 0.5 for p in pts])
+    for fail_on in ({3}, {2, 5}, {4, 5}):
+        src = Flaky(fail_on)
+        bg = BatchGenerator(src, 10)
+        delivered, errors = [], 0
+        for _ in range(8):
+            try:
+                b = bg.get_examples()
+                if len(b[0]) != 10:
+                    bad.append(dict(script=dict(kind='underlying generator fails during a refill', fails_on_calls=sorted(fail_on)), violated=f'batch of {len(b[0])} rows'))
+                if [v + 0.5 for v in b[0].tolist()] != b[1].tolist():
+                    bad.append(dict(script=dict(kind='underlying generator fails during a refill', fails_on_calls=sorted(fail_on)), violated='rows not paired'))
+                delivered += b[0].tolist()
+            except RuntimeError:
+                errors += 1
+        if delivered != src.given[:len(delivered)]:
+            first = next((i for i, (a, b_) in enumerate(zip(delivered, src.given)) if a != b_), None)
+            bad.append(dict(script=dict(kind='underlying generator fails during a refill and the caller retries', fails_on_calls=sorted(fail_on)),
+                            violated='delivered batches are not a prefix of the draws taken from the underlying generator (samples lost or reordered)',
+                            first_difference=first, delivered=delivered[:14], drawn=src.given[:14]))
+
+    class Widening(BaseGenerator):
+        def __init__(self):
+            super().__init__()
+            self.size, self.k, self.given = 2, 0, []
+
+        def get_examples(self):
+            self.k += 1
+            if self.k == 1:
+                t = torch.tensor([0.5, 1.5], dtype=torch.float32)
+            else:
+                t = torch.tensor([self.k + 2.0 ** -40, self.k + 0.25 + 2.0 ** -45], dtype=torch.float64)
+            self.given += [float(v) for v in t.tolist()]
+            return t
+    src = Widening()
+    bg = BatchGenerator(src, 3)
+    delivered = []
+    for _ in range(5):
+        delivered += [float(v) for v in bg.get_examples().to(torch.float64).tolist()]
+    if delivered != src.given[:len(delivered)]:
+        first = next((i for i, (a, b_) in enumerate(zip(delivered, src.given)) if a != b_), None)
+        bad.append(dict(script=dict(kind='first draw float32, later draws float64'), violated='a delivered sample differs from the sample that was drawn',
+                        index=first, delivered=delivered[first] if first is not None else None, drawn=src.given[first] if first is not None else None))
+    return bad
+
+
 def scripts(tier, seed):
     rng = random.Random(seed)
     out = []
@@ -131,6 +197,7 @@ def check(tier, seed):
         bad = property_holds(draws, out, s['bs'], s['dims'])
         if bad:
             failing.append(dict(script=s, violated=bad, draws=draws, batches=out))
+    failing += robustness_checks()
     if len(mblocks) != len(reals):
         mismatches.append(dict(error='driver returned a different number of blocks', got=len(mblocks), want=len(reals)))
     if mismatches:
